@@ -242,6 +242,39 @@ def wait_bootup(pattern, prior=0):
     sx.reach("wait-boot")
 
 
+def node_id_from_dictionary(form):
+    """RemoteNode(0, od) / RemoteNode(None, od): the node id comes from the object dictionary (documented); the NMT
+    master addresses that id"""
+    Network = sx.mod("canopen.network").Network
+    RemoteNode = sx.mod("canopen.node.remote").RemoteNode
+    od = C.typed_od(with_pdo=False)
+    nid = sx.fresh_int("nid", 1, 127)
+    od.node_id = nid
+    net = Network()
+    frames = []
+    net.send_message = lambda cid, data, remote=False: frames.append((cid, data))
+    node = RemoteNode(form, od)
+    tag = "C11/node-id-from-od"
+    sx.prove(node.id == nid, "node id taken from the dictionary", tag + "/id")
+    net.add_node(node)
+    name = ["OPERATIONAL", "STOPPED", "PRE-OPERATIONAL", "RESET"][sx.choice(4, "name")]
+    node.nmt.state = name
+    cs = {"OPERATIONAL": 1, "STOPPED": 2, "PRE-OPERATIONAL": 128, "RESET": 129}[name]
+    sx.prove(len(frames) == 1 and frames[0][0] == 0, "one frame on CAN id 0", tag + "/frame")
+    if len(frames) == 1:
+        it = sx.items(_asbytes(frames[0][1]))
+        sx.prove(len(it) == 2 and (it[0] == cs) & (it[1] == nid), "frame is [command specifier, node id]", tag + "/bytes")
+    # a command another master addresses to this node is followed, one for another node is not
+    other = sx.fresh_int("other", 1, 127)
+    sx.assume(other != nid)
+    net.notify(0, sx.mkbytes([2, other]), 0.0)
+    sx.prove(node.nmt.state == STATE_NAMES[{1: 5, 2: 4, 128: 127, 129: 0}[cs]], "foreign command followed",
+             tag + "/foreign")
+    net.notify(0, sx.mkbytes([1, nid]), 0.0)
+    sx.prove(node.nmt.state == "OPERATIONAL", "command for this node not followed", tag + "/own")
+    sx.reach("node-id-from-od")
+
+
 def foreign_command_heartbeat(modifiable):
     """the slave's heartbeat producer is running: a command addressed to another node leaves the state it reports
     (the byte in its heartbeat frames) unchanged; a command for this node or a broadcast changes it to the new state"""
@@ -293,8 +326,9 @@ def wait_bootup_stream(nhb, period_ms):
     sx.fail("wait_for_bootup returned without a boot-up", "C11/wait/bootup-spurious")
 
 
-def wait_threads(kind, prior):
-    """the heartbeat arrives from a second thread while the caller enters / sits in the wait"""
+def wait_threads(kind, prior, traffic=0):
+    """the heartbeat arrives from a second thread while the caller enters / sits in the wait (traffic: another
+    master's NMT command for some other node passes on the bus just before it)"""
     rig = Rig()
     NmtError = sx.mod("canopen.nmt").NmtError
     if prior:
@@ -303,7 +337,12 @@ def wait_threads(kind, prior):
     if kind != "bootup":
         sx.assume(sx.any_([(b & 0x7F) == x for x in STATES]))
     sched = sx.scheduler()
-    sched.spawn(lambda: rig.inject(0x700 + NODE, sx.mkbytes([b])), "bus")
+
+    def bus():
+        if traffic:
+            rig.inject(0, sx.mkbytes([sx.fresh_byte("other_cs"), NODE + 1]))
+        rig.inject(0x700 + NODE, sx.mkbytes([b]))
+    sched.spawn(bus, "bus")
     try:
         if kind == "bootup":
             rig.master.wait_for_bootup(timeout=1)
@@ -329,6 +368,10 @@ def jobs(tier):
     out = []
     for mod in (1, 0):
         out.append(dict(func="foreign_command_heartbeat", params=dict(modifiable=mod)))
+    for form in (0, None):
+        out.append(dict(func="node_id_from_dictionary", params=dict(form=form)))
+    for kind in ("heartbeat", "bootup"):
+        out.append(dict(func="wait_threads", params=dict(kind=kind, prior=0, traffic=1)))
     for nhb, per in ((12, 300), (40, 100)) if tier == "quick" else ((12, 300), (40, 100), (8, 900), (100, 50)):
         out.append(dict(func="wait_bootup_stream", params=dict(nhb=nhb, period_ms=per), weight=nhb))
     for kind in KINDS:
@@ -368,7 +411,7 @@ META = dict(
                  "fake clock advances by the time-out on a wake-up without delivery"],
     stubs=["struct", "threading.Condition", "time", "can (unused: send_message replaced on the instance)", "logging"],
     required_reach=["send_command", "state-name", "invalid-name", "foreign", "heartbeat", "heartbeat-other", "bootup",
-                    "history", "wait-hb", "wait-hb-timeout", "wait-boot", "wait-boot-timeout", "wait-boot-stream", "foreign-heartbeat", "threads-woken", "threads-timeout"],
+                    "history", "wait-hb", "wait-hb-timeout", "wait-boot", "wait-boot-timeout", "wait-boot-stream", "foreign-heartbeat", "node-id-from-od", "threads-woken", "threads-timeout"],
     limits=dict(quick=dict(), thorough=dict()),
     validate_every=dict(quick=5, thorough=20),
 )
